@@ -787,7 +787,9 @@ def run_payload(ctx, r, payload, label):
 def run(ctx):
     ctx.rule = ("APIs of three generated files (service file, a file it imports, a file nobody imports; random request order) x LRO methods whose "
                 "response/metadata names are relative|fully-qualified x same-file|imported|un-imported|nested|Empty|other dependency type "
-                "(imported by the service's file or not) x histories (RPC reply, not-done^k, done(response|error|neither), extra replies) x "
+                "(imported by the service's file or not); 30% of the APIs put the service's file in a SUB-PACKAGE `<pkg>.sub` while files of the ancestor package "
+                "`<pkg>` and of `<pkg>.other` | `<pkg>.sub.deeper` define messages with the same short names (relative names must denote the method's "
+                "package; T3 skipped for two-level sub-packages) x histories (RPC reply, not-done^k, done(response|error|neither), extra replies) x "
                 "{gRPC, gRPC asyncio, REST}; plus rejection cases and excluded points; distinct by API spec, by (transport, response case, "
                 "metadata case, history shape), by selector pair; non-trivial = every one")
     r = ctx.rng("specs")
